@@ -22,6 +22,8 @@
      Deterministic         finished definitions of the same function have the same bytes
    bytes are abstracted as <<function, own units, foreign units>>.
 
+   Annotate: a finished definition's variants / metadata dictionaries are mutated in place between builds; every
+   definition owns its dictionaries, SharedExtras = TRUE (one process-wide default dictionary) must break Deterministic.
    CtxEarly = TRUE: a read-back installs its dummy definition as the global context BEFORE it takes the lock;
    ClearLate = TRUE: a build / read-back clears the global context AFTER it released the lock.  Both must break
    Isolation (units of the definition being built by another thread attach elsewhere).
@@ -32,15 +34,17 @@
    The predicates ExclusiveOK, IdleOK, DetOK are the ones TraceBuild.tla evaluates on the
    observations recorded from real (threaded) builds.                                        *)
 EXTENDS Naturals, Sequences, FiniteSets, TLC
-CONSTANTS Threads, Funcs, MaxAttempts, ClearOnFail, ClearOnReadFail, UseLock, CtxEarly, ClearLate
+CONSTANTS Threads, Funcs, MaxAttempts, ClearOnFail, ClearOnReadFail, UseLock, CtxEarly, ClearLate, SharedExtras
 Kinds == {"build", "read"}
 Outcomes == {"ok", "raise_func", "raise_check"}
-VARIABLES lock, ctx, pc, att, nb, owner, fin, natt, orphans
-vars == <<lock, ctx, pc, att, nb, owner, fin, natt, orphans>>
+VARIABLES lock, ctx, pc, att, nb, owner, fin, natt, orphans, extras
+vars == <<lock, ctx, pc, att, nb, owner, fin, natt, orphans, extras>>
 
+DictOf(id) == IF SharedExtras THEN 0 ELSE id        \* which variants / metadata dictionary definition id uses (see Annotate)
 NoAtt == [id |-> 0, f |-> "", out |-> "", kind |-> ""]
 Init == /\ lock = 0 /\ ctx = 0 /\ pc = [t \in Threads |-> "idle"] /\ att = [t \in Threads |-> NoAtt]
         /\ nb = 0 /\ owner = <<>> /\ fin = {} /\ natt = [t \in Threads |-> 0] /\ orphans = {}
+        /\ extras = [i \in 0..(Cardinality(Threads) * MaxAttempts) |-> {}]
 
 \* ---- state predicates shared with the trace spec
 InFunc(p) == p \in {"f1", "f2", "chk", "done", "fail", "want2", "doneL", "failL"}       \* between SetCtx and the clearing of the context
@@ -57,60 +61,67 @@ Begin(t) == /\ pc[t] = "idle" /\ natt[t] < MaxAttempts
             /\ \E f \in Funcs, o \in Outcomes, k \in Kinds :
                   att' = [att EXCEPT ![t] = [id |-> nb + 1, f |-> f, out |-> o, kind |-> k]]
             /\ nb' = nb + 1 /\ pc' = [pc EXCEPT ![t] = "want"]
-            /\ UNCHANGED <<lock, ctx, owner, fin, natt, orphans>>
+            /\ UNCHANGED <<lock, ctx, owner, fin, natt, orphans, extras>>
 Early(t) == CtxEarly /\ att[t].kind = "read"
 \* (model variant) the read-back writes the global context before it has the lock
 SetCtxEarly(t) == /\ pc[t] = "want" /\ Early(t) /\ ctx' = att[t].id /\ pc' = [pc EXCEPT ![t] = "want2"]
-                  /\ UNCHANGED <<lock, att, nb, owner, fin, natt, orphans>>
+                  /\ UNCHANGED <<lock, att, nb, owner, fin, natt, orphans, extras>>
 Acquire(t) == /\ (pc[t] = "want" /\ ~Early(t)) \/ pc[t] = "want2"
               /\ (UseLock => lock = 0)
               /\ lock' = (IF UseLock THEN t ELSE lock)
               /\ pc' = [pc EXCEPT ![t] = IF pc[t] = "want2" THEN "f1" ELSE "acq"]
-              /\ UNCHANGED <<ctx, att, nb, owner, fin, natt, orphans>>
+              /\ UNCHANGED <<ctx, att, nb, owner, fin, natt, orphans, extras>>
 SetCtx(t) == /\ pc[t] = "acq" /\ ctx' = att[t].id /\ pc' = [pc EXCEPT ![t] = "f1"]
-             /\ UNCHANGED <<lock, att, nb, owner, fin, natt, orphans>>
+             /\ UNCHANGED <<lock, att, nb, owner, fin, natt, orphans, extras>>
 Create1(t) == /\ pc[t] = "f1" /\ owner' = Put(<<att[t].id, 1>>, ctx) /\ pc' = [pc EXCEPT ![t] = "f2"]
-              /\ UNCHANGED <<lock, ctx, att, nb, fin, natt, orphans>>
+              /\ UNCHANGED <<lock, ctx, att, nb, fin, natt, orphans, extras>>
 Create2(t) == /\ pc[t] = "f2"
               /\ IF att[t].out = "raise_func"
                  THEN pc' = [pc EXCEPT ![t] = "fail"] /\ UNCHANGED owner
                  ELSE owner' = Put(<<att[t].id, 2>>, ctx) /\ pc' = [pc EXCEPT ![t] = "chk"]
-              /\ UNCHANGED <<lock, ctx, att, nb, fin, natt, orphans>>
+              /\ UNCHANGED <<lock, ctx, att, nb, fin, natt, orphans, extras>>
 Check(t) == /\ pc[t] = "chk"
             /\ IF att[t].out = "raise_check"
                THEN pc' = [pc EXCEPT ![t] = "fail"] /\ UNCHANGED fin
                ELSE /\ pc' = [pc EXCEPT ![t] = "done"]
                     /\ fin' = fin \cup {[id |-> att[t].id, f |-> <<att[t].kind, att[t].f>>,
                                          bytes |-> <<att[t].f, Cardinality(Has(att[t].id) \cap Own(att[t].id)),
-                                                     Cardinality(Has(att[t].id) \ Own(att[t].id))>>,
+                                                     Cardinality(Has(att[t].id) \ Own(att[t].id)), extras[DictOf(att[t].id)]>>,
                                          lost |-> Cardinality(Own(att[t].id) \ Has(att[t].id))]}
-            /\ UNCHANGED <<lock, ctx, att, nb, owner, natt, orphans>>
+            /\ UNCHANGED <<lock, ctx, att, nb, owner, natt, orphans, extras>>
 \* normal order: clear the context, then release; ClearLate: release first (pc done -> doneL, fail -> failL), clear after
 ClearOk(t) == /\ pc[t] = "done" /\ ~ClearLate /\ ctx' = 0 /\ pc' = [pc EXCEPT ![t] = "rel"]
-              /\ UNCHANGED <<lock, att, nb, owner, fin, natt, orphans>>
+              /\ UNCHANGED <<lock, att, nb, owner, fin, natt, orphans, extras>>
 Cleared(a) == IF a.kind = "build" THEN ClearOnFail ELSE (ClearOnReadFail \/ a.out = "raise_check")
 ClearFail(t) == /\ pc[t] = "fail" /\ ~ClearLate
                 /\ ctx' = (IF Cleared(att[t]) THEN 0 ELSE ctx) /\ pc' = [pc EXCEPT ![t] = "rel"]
-                /\ UNCHANGED <<lock, att, nb, owner, fin, natt, orphans>>
+                /\ UNCHANGED <<lock, att, nb, owner, fin, natt, orphans, extras>>
 Finished(t) == /\ pc' = [pc EXCEPT ![t] = "idle"] /\ natt' = [natt EXCEPT ![t] = @ + 1]
                /\ att' = [att EXCEPT ![t] = NoAtt]
 Release(t) == /\ pc[t] = "rel" /\ lock' = (IF lock = t THEN 0 ELSE lock)
               /\ Finished(t)
-              /\ UNCHANGED <<ctx, nb, owner, fin, orphans>>
+              /\ UNCHANGED <<ctx, nb, owner, fin, orphans, extras>>
 ReleaseFirst(t) == /\ ClearLate /\ pc[t] \in {"done", "fail"}
                    /\ lock' = (IF lock = t THEN 0 ELSE lock)
                    /\ pc' = [pc EXCEPT ![t] = IF pc[t] = "done" THEN "doneL" ELSE "failL"]
-                   /\ UNCHANGED <<ctx, att, nb, owner, fin, natt, orphans>>
+                   /\ UNCHANGED <<ctx, att, nb, owner, fin, natt, orphans, extras>>
 ClearAfter(t) == /\ pc[t] \in {"doneL", "failL"}
                  /\ ctx' = (IF pc[t] = "doneL" \/ Cleared(att[t]) THEN 0 ELSE ctx)
                  /\ Finished(t)
-                 /\ UNCHANGED <<lock, nb, owner, fin, orphans>>
+                 /\ UNCHANGED <<lock, nb, owner, fin, orphans, extras>>
 \* a unit created (and SynthDef.wrap tried) while nobody is building or reading
 Orphan(t) == /\ pc[t] = "idle" /\ \A s \in Threads : ~Building(pc[s])
              /\ Cardinality(orphans) < 2
              /\ orphans' = orphans \cup {[n |-> Cardinality(orphans) + 1, owner |-> ctx, wrap |-> ctx # 0]}
-             /\ UNCHANGED <<lock, ctx, pc, att, nb, owner, fin, natt>>
-Next == \E t \in Threads : Begin(t) \/ SetCtxEarly(t) \/ ReleaseFirst(t) \/ ClearAfter(t) \/ Acquire(t) \/ SetCtx(t) \/ Create1(t) \/ Create2(t) \/ Check(t)
+             /\ UNCHANGED <<lock, ctx, pc, att, nb, owner, fin, natt, extras>>
+\* the build arguments `variants` / `metadata` of a definition are dictionaries the definition keeps and exposes: a user
+\* may annotate a FINISHED definition in place (sd.variants[k] = ..., sd.metadata[k] = ...).  Every definition owns its
+\* dictionaries (DictOf = its id); SharedExtras = TRUE: definitions built without the arguments all share one dictionary
+\* (DictOf = 0), so an annotation of one leaks into the bytes of every later one - must violate Deterministic.
+Annotate(t) == /\ pc[t] = "idle" /\ \E b \in fin : /\ b.f[1] = "build" /\ b.id \notin extras[DictOf(b.id)]
+                                                  /\ extras' = [extras EXCEPT ![DictOf(b.id)] = @ \cup {b.id}]
+               /\ UNCHANGED <<lock, ctx, pc, att, nb, owner, fin, natt, orphans>>
+Next == \E t \in Threads : Annotate(t) \/ Begin(t) \/ SetCtxEarly(t) \/ ReleaseFirst(t) \/ ClearAfter(t) \/ Acquire(t) \/ SetCtx(t) \/ Create1(t) \/ Create2(t) \/ Check(t)
                            \/ ClearOk(t) \/ ClearFail(t) \/ Release(t) \/ Orphan(t)
 Spec == Init /\ [][Next]_vars
 
